@@ -6,6 +6,16 @@ the driver runs against `/repo` on every check.
 -/
 import OdlModel.Model.Prox
 import OdlModel.Lemmas.Prox
+import Mathlib.Tactic.Positivity
+import Mathlib.Tactic.GCongr
+import Mathlib.Algebra.BigOperators.Group.Finset.Basic
+import Mathlib.Algebra.Order.BigOperators.Group.Finset
+import Mathlib.Algebra.BigOperators.Ring.Finset
+import Mathlib.Algebra.BigOperators.Intervals
+import Mathlib.Analysis.SpecialFunctions.Log.Basic
+import Mathlib.Analysis.Real.Sqrt
+import Mathlib.Tactic.IntervalCases
+import Mathlib.Tactic.NormNum.BigOperators
 
 open OdlModel.Prox
 
@@ -51,7 +61,346 @@ theorem C07.soft_vi (s x g z : K) (hs : 0 < s) :
 example : softCode (1/2 : ℚ) 2 (1/4) = 3/2 := by
   simp only [softCode, absK, maxK]; norm_num
 
+/-- `ProximalConvexConjL1._call` at one point (`eps = 0`, `sg = σ·g`): the result lies in
+`[-λ, λ]` and satisfies the variational inequality of `σ·(ι_{|·|≤λ} + g·)` at `x`. -/
+theorem C07.ccl1_vi (lam sg x z : K) (hl : 0 < lam) (hz : |z| ≤ lam) :
+    |ccL1Code lam sg x| ≤ lam ∧
+    sg * ccL1Code lam sg x + (x - ccL1Code lam sg x) * (z - ccL1Code lam sg x) ≤ sg * z := by
+  unfold ccL1Code
+  simp only [absK_eq, maxK_eq]
+  have hz' := abs_le.mp hz
+  rcases le_or_gt (|x - sg|) lam with h | h
+  · rw [max_eq_right h, div_self (ne_of_gt hl), div_one]
+    refine ⟨h, ?_⟩
+    nlinarith
+  · rw [max_eq_left (le_of_lt h)]
+    have hd : 0 < |x - sg| := lt_trans hl h
+    rcases le_or_gt 0 (x - sg) with hd0 | hd0
+    · rw [abs_of_nonneg hd0] at h hd ⊢
+      have e : (x - sg) / ((x - sg) / lam) = lam := by field_simp
+      rw [e]
+      refine ⟨by rw [abs_of_pos hl], ?_⟩
+      nlinarith
+    · rw [abs_of_neg hd0] at h hd ⊢
+      have hne : x - sg ≠ 0 := ne_of_lt hd0
+      have e : (x - sg) / (-(x - sg) / lam) = -lam := by field_simp
+      rw [e]
+      refine ⟨by rw [abs_neg, abs_of_pos hl], ?_⟩
+      nlinarith
+
+/-- `ProximalL2Squared._call` (scalar step) at one point: variational inequality of
+`σ·λ(· − g)²`. -/
+theorem C07.l2sq_vi (lam sig x g z : K) (hl : 0 ≤ lam) (hs : 0 < sig) :
+    sig * (lam * (l2sqCode lam sig x g - g) ^ 2)
+      + (x - l2sqCode lam sig x g) * (z - l2sqCode lam sig x g) ≤ sig * (lam * (z - g) ^ 2) := by
+  have ht : 0 < 1 + (1 + 1) * sig * lam := by positivity
+  have hp : l2sqCode lam sig x g = (x + (1 + 1) * sig * lam * g) / (1 + (1 + 1) * sig * lam) := by
+    unfold l2sqCode; field_simp
+  set p := l2sqCode lam sig x g with hpdef
+  have h1 : x - p = (1 + 1) * sig * lam * (p - g) := by
+    rw [hp]; field_simp; ring
+  rw [h1]
+  have : 0 ≤ sig * lam * (z - p) ^ 2 := by positivity
+  nlinarith
+
+/-- The point-wise-step branch of `ProximalL2Squared._call` computes the same value as the
+scalar branch with that point's step. -/
+theorem C07.l2sq_pointwise_eq (lam sig x g : K) (hl : 0 ≤ lam) (hs : 0 < sig) :
+    l2sqCodeV lam sig x g = l2sqCode lam sig x g := by
+  have ht : 0 < 1 + (1 + 1) * sig * lam := by positivity
+  unfold l2sqCodeV l2sqCode; field_simp
+
+/-- `ProximalConvexConjL2Squared._call` at one point: variational inequality of
+`σ·(z²/(4λ) + g z)`, the conjugate of `λ(· − g)²`. -/
+theorem C07.ccl2sq_vi (lam sig x g z : K) (hl : 0 < lam) (hs : 0 < sig) :
+    sig * ((ccL2sqCode lam sig x g) ^ 2 / (4 * lam) + g * ccL2sqCode lam sig x g)
+      + (x - ccL2sqCode lam sig x g) * (z - ccL2sqCode lam sig x g)
+      ≤ sig * (z ^ 2 / (4 * lam) + g * z) := by
+  have ht : 0 < 1 + 1 / (1 + 1) * sig / lam := by positivity
+  have hp : ccL2sqCode lam sig x g = (x - sig * g) / (1 + sig / (2 * lam)) := by
+    unfold ccL2sqCode; field_simp; ring
+  set p := ccL2sqCode lam sig x g with hpdef
+  have hd : 0 < 1 + sig / (2 * lam) := by positivity
+  have h1 : x - p = sig * (p / (2 * lam) + g) := by
+    rw [hp]; field_simp; ring
+  rw [h1]
+  have : 0 ≤ sig / (4 * lam) * (z - p) ^ 2 := by positivity
+  have e : sig * (z ^ 2 / (4 * lam) + g * z) - (sig * (p ^ 2 / (4 * lam) + g * p)
+      + sig * (p / (2 * lam) + g) * (z - p)) = sig / (4 * lam) * (z - p) ^ 2 := by
+    field_simp; ring
+  linarith
+
+theorem C07.ccl2sq_pointwise_eq (lam sig x g : K) (hl : 0 < lam) (hs : 0 < sig) :
+    ccL2sqCodeV lam sig x g = ccL2sqCode lam sig x g := by
+  have ht : 0 < 1 + 1 / (1 + 1) * sig / lam := by positivity
+  have ht' : 0 < 1 + 1 / (1 + 1) / lam * sig := by positivity
+  unfold ccL2sqCodeV ccL2sqCode; field_simp; ring
+
+/-- `ProxOpBoxConstraint._call` at one point: the result is in the box and satisfies the
+projection inequality. (All four combinations of absent bounds.) -/
+theorem C07.box_vi (lo hi : Option K) (x z : K)
+    (hlh : ∀ l u, lo = some l → hi = some u → l ≤ u)
+    (hzl : ∀ l, lo = some l → l ≤ z) (hzu : ∀ u, hi = some u → z ≤ u) :
+    (∀ l, lo = some l → l ≤ boxCode lo hi x) ∧ (∀ u, hi = some u → boxCode lo hi x ≤ u) ∧
+    (x - boxCode lo hi x) * (z - boxCode lo hi x) ≤ 0 := by
+  rcases lo with _ | l <;> rcases hi with _ | u <;>
+    simp only [boxCode, maxK_eq, minK_eq, reduceCtorEq, Option.some.injEq, forall_eq',
+      IsEmpty.forall_iff, implies_true, true_and, and_true, sub_self, zero_mul, le_refl] at *
+  · rcases le_total x u with h | h
+    · rw [min_eq_left h]; simp [h]
+    · rw [min_eq_right h]; exact ⟨le_refl _, by nlinarith⟩
+  · rcases le_total x l with h | h
+    · rw [max_eq_right h]; exact ⟨le_refl _, by nlinarith⟩
+    · rw [max_eq_left h]; simp [h]
+  · have hlh : l ≤ u := hlh l u rfl rfl
+    rcases le_total x l with h | h
+    · rw [max_eq_right h, min_eq_left hlh]; exact ⟨le_refl _, hlh, by nlinarith⟩
+    · rw [max_eq_left h]
+      rcases le_total x u with h' | h'
+      · rw [min_eq_left h']; simp [h, h']
+      · rw [min_eq_right h']; exact ⟨hlh, le_refl _, by nlinarith⟩
+
+/-- `ProximalHuber._call` at one point of a tensor space: variational inequality of `σ·f_γ`. -/
+theorem C07.huber_vi (gam sig x z : K) (hg : 0 < gam) (hs : 0 < sig) :
+    sig * huberFn gam (huberCode gam sig x)
+      + (x - huberCode gam sig x) * (z - huberCode gam sig x) ≤ sig * huberFn gam z := by
+  have hgs : 0 < gam + sig := by positivity
+  unfold huberCode
+  simp only [absK_eq]
+  -- the Huber function dominates its tangents: f(z) ≥ f(p) + f'(p)(z - p)
+  have tangent_in : ∀ p : K, |p| ≤ gam →
+      p ^ 2 / (2 * gam) + p / gam * (z - p) ≤ huberFn gam z := by
+    intro p hp
+    have hp' := abs_le.mp hp
+    unfold huberFn
+    split_ifs with hz
+    · have : 0 ≤ (z - p) ^ 2 / (2 * gam) := by positivity
+      have e : z ^ 2 / (2 * gam) - (p ^ 2 / (2 * gam) + p / gam * (z - p))
+          = (z - p) ^ 2 / (2 * gam) := by field_simp; ring
+      linarith
+    · have hz' : gam < |z| := not_le.mp hz
+      have e : p ^ 2 / (2 * gam) + p / gam * (z - p) = (2 * p * z - p ^ 2) / (2 * gam) := by
+        field_simp; ring
+      rw [e, div_le_iff₀ (by positivity)]
+      rcases le_or_gt 0 z with h0 | h0
+      · rw [abs_of_nonneg h0] at hz' ⊢; nlinarith
+      · rw [abs_of_neg h0] at hz' ⊢; nlinarith
+  split_ifs with h
+  · -- quadratic zone: p = γ/(γ+σ) x, |p| ≤ γ, x - p = σ p/γ
+    set p := gam / (gam + sig) * x with hp
+    have hpa : |p| ≤ gam := by
+      rw [hp, abs_mul, abs_of_pos (div_pos hg hgs), div_mul_eq_mul_div, div_le_iff₀ hgs]
+      nlinarith [abs_nonneg x]
+    have hx : x - p = sig * (p / gam) := by rw [hp]; field_simp; ring
+    have hfp : huberFn gam p = p ^ 2 / (2 * gam) := by unfold huberFn; rw [if_pos hpa]
+    have := tangent_in p hpa
+    rw [hfp, hx]
+    nlinarith
+  · -- linear zone: p = x - σ sign x, |p| > γ
+    have hx : gam + sig < |x| := not_le.mp h
+    rcases le_or_gt 0 x with h0 | h0
+    · rw [abs_of_nonneg h0] at hx
+      have hsx : signK x = 1 := by unfold signK; rw [if_pos (by linarith)]
+      rw [hsx, mul_one]
+      have hp : gam < x - sig := by linarith
+      have hfp : huberFn gam (x - sig) = (x - sig) - gam / 2 := by
+        unfold huberFn; rw [abs_of_pos (by linarith), if_neg (not_le.mpr hp)]
+      rw [hfp]
+      have : (x - sig) - gam / 2 + 1 * (z - (x - sig)) ≤ huberFn gam z := by
+        unfold huberFn
+        split_ifs with hz
+        · have hz' := abs_le.mp hz
+          rw [le_div_iff₀ (by positivity)]; nlinarith
+        · have := le_abs_self z; linarith
+      nlinarith
+    · rw [abs_of_neg h0] at hx
+      have hsx : signK x = -1 := by
+        unfold signK; rw [if_neg (by linarith), if_pos h0]
+      rw [hsx]
+      have hp : x + sig < -gam := by linarith
+      have e : x - sig * -1 = x + sig := by ring
+      rw [e]
+      have hfp : huberFn gam (x + sig) = -(x + sig) - gam / 2 := by
+        unfold huberFn; rw [abs_of_neg (by linarith), if_neg (by linarith)]
+      rw [hfp]
+      have : -(x + sig) - gam / 2 + (-1) * (z - (x + sig)) ≤ huberFn gam z := by
+        unfold huberFn
+        split_ifs with hz
+        · have hz' := abs_le.mp hz
+          rw [le_div_iff₀ (by positivity)]; nlinarith
+        · have := neg_abs_le z; linarith
+      nlinarith
+
+
 end Scalar
+
+/-! ## lifting to all sizes, weights and per-point steps; non-separable projections -/
+section Lift
+open Finset
+variable {K : Type} [Field K] [LinearOrder K] [IsStrictOrderedRing K]
+
+/-- Separable sum / lifting to all sizes with arbitrary positive weights and per-point steps:
+if every coordinate satisfies its scalar variational inequality, then `p` minimises
+`Σ w_i (φ_i(z_i) + (z_i − x_i)²/(2σ_i))` with a quadratic gap. -/
+theorem C07.separable_lift {ι : Type} (s : Finset ι) (w sig x p z : ι → K) (φ : ι → K → K)
+    (hw : ∀ i ∈ s, 0 ≤ w i) (hs : ∀ i ∈ s, 0 < sig i)
+    (h : ∀ i ∈ s, sig i * φ i (p i) + (x i - p i) * (z i - p i) ≤ sig i * φ i (z i)) :
+    ∑ i ∈ s, w i * (φ i (p i) + ((p i - x i) ^ 2 + (z i - p i) ^ 2) / (2 * sig i))
+      ≤ ∑ i ∈ s, w i * (φ i (z i) + (z i - x i) ^ 2 / (2 * sig i)) := by
+  apply Finset.sum_le_sum
+  intro i hi
+  apply mul_le_mul_of_nonneg_left _ (hw i hi)
+  have hsi := hs i hi
+  have h1 := h i hi
+  have e : φ i (z i) + (z i - x i) ^ 2 / (2 * sig i)
+      - (φ i (p i) + ((p i - x i) ^ 2 + (z i - p i) ^ 2) / (2 * sig i))
+      = (sig i * φ i (z i) - (sig i * φ i (p i) + (x i - p i) * (z i - p i))) / sig i := by
+    field_simp; ring
+  have : 0 ≤ (sig i * φ i (z i) - (sig i * φ i (p i) + (x i - p i) * (z i - p i))) / sig i :=
+    div_nonneg (by linarith) (le_of_lt hsi)
+  linarith
+
+/-- `IndicatorSumConstraint.proximal` (offset `(s − Σx)/n` added to every entry): the result
+has the prescribed sum and satisfies the projection inequality for every `z` with that sum —
+in the unweighted (or constant-weight) inner product. -/
+theorem C07.sumc_vi {ι : Type} (I : Finset ι) (hI : I.Nonempty) (x z : ι → K) (sv : K)
+    (hz : ∑ i ∈ I, z i = sv) :
+    let off := 1 / (I.card : K) * (sv - ∑ i ∈ I, x i)
+    (∑ i ∈ I, (x i + off) = sv) ∧
+    ∑ i ∈ I, (x i - (x i + off)) * (z i - (x i + off)) ≤ 0 := by
+  intro off
+  have hn : (I.card : K) ≠ 0 := by
+    exact_mod_cast (Finset.card_pos.mpr hI).ne'
+  have hsum : ∑ i ∈ I, (x i + off) = sv := by
+    rw [Finset.sum_add_distrib, Finset.sum_const, nsmul_eq_mul]
+    simp only [off]; field_simp; ring
+  refine ⟨hsum, ?_⟩
+  have e : ∀ i ∈ I, (x i - (x i + off)) * (z i - (x i + off)) = -off * (z i - (x i + off)) := by
+    intro i _; ring
+  rw [Finset.sum_congr rfl e, ← Finset.mul_sum, Finset.sum_sub_distrib, hz, hsum]
+  simp
+
+/-- KKT sufficiency for `proj_simplex` (unweighted / constant-weight inner product): if
+`p = max(x − τ, 0)` entry-wise and `Σ p = r`, then `p` is in the simplex and satisfies the
+projection inequality against every `z ≥ 0` with `Σ z = r`. -/
+theorem C07.simplex_kkt_sufficient {ι : Type} (I : Finset ι) (x z : ι → K) (tau r : K)
+    (hp : ∑ i ∈ I, maxK (x i - tau) 0 = r)
+    (hz0 : ∀ i ∈ I, 0 ≤ z i) (hz : ∑ i ∈ I, z i = r) :
+    (∀ i ∈ I, 0 ≤ maxK (x i - tau) 0) ∧
+    ∑ i ∈ I, (x i - maxK (x i - tau) 0) * (z i - maxK (x i - tau) 0) ≤ 0 := by
+  simp only [maxK_eq] at *
+  refine ⟨fun i _ => le_max_right _ _, ?_⟩
+  have key : ∀ i ∈ I, (x i - max (x i - tau) 0) * (z i - max (x i - tau) 0)
+      ≤ tau * (z i - max (x i - tau) 0) := by
+    intro i hi
+    have hzi := hz0 i hi
+    rcases le_total (x i - tau) 0 with h | h
+    · rw [max_eq_right h]; nlinarith
+    · rw [max_eq_left h]; nlinarith
+  calc ∑ i ∈ I, (x i - max (x i - tau) 0) * (z i - max (x i - tau) 0)
+      ≤ ∑ i ∈ I, tau * (z i - max (x i - tau) 0) := Finset.sum_le_sum key
+    _ = tau * (∑ i ∈ I, z i - ∑ i ∈ I, max (x i - tau) 0) := by
+        rw [← Finset.mul_sum, Finset.sum_sub_distrib]
+    _ = 0 := by rw [hz, hp]; ring
+    _ ≤ 0 := le_refl _
+
+
+/-- The sorted-prefix rule of `proj_simplex` produces a feasible threshold: for a
+non-increasing `u`, if `i` is an index with `crit_i ≥ 0` whose successor (if any) has
+`crit_{i+1} < 0` (in particular the LAST index with `crit ≥ 0`, which is what
+`np.argwhere(crit >= 0).max()` selects), then `τ = (Σ_{k<i} u_k − r)/i` satisfies
+`Σ_k max(u_k − τ, 0) = r`. -/
+theorem C07.simplex_threshold_feasible_partial (n i : ℕ) (u : ℕ → K) (r : K)
+    (hi1 : 1 ≤ i) (hin : i ≤ n)
+    (hanti : ∀ a b, a ≤ b → b < n → u b ≤ u a)
+    (hcrit : 0 ≤ u (i - 1) - 1 / (i : K) * (∑ k ∈ range i, u k - r))
+    (hnext : i = n ∨ u i - 1 / ((i : K) + 1) * (∑ k ∈ range (i + 1), u k - r) < 0) :
+    ∑ k ∈ range n, maxK (u k - 1 / (i : K) * (∑ k ∈ range i, u k - r)) 0 = r := by
+  simp only [maxK_eq]
+  set tau := 1 / (i : K) * (∑ k ∈ range i, u k - r) with htau
+  have hipos : (0 : K) < i := by exact_mod_cast hi1
+  have hlow : ∀ k ∈ range i, max (u k - tau) 0 = u k - tau := by
+    intro k hk
+    have hk' : k < i := mem_range.mp hk
+    have : u (i - 1) ≤ u k := hanti k (i - 1) (by omega) (by omega)
+    exact max_eq_left (by linarith)
+  have hhigh : ∀ k ∈ Ico i n, max (u k - tau) 0 = 0 := by
+    intro k hk
+    obtain ⟨hk1, hk2⟩ := mem_Ico.mp hk
+    rcases hnext with h | h
+    · omega
+    · have hui : u i < tau := by
+        rw [sum_range_succ] at h
+        have hi1' : (0 : K) < (i : K) + 1 := by positivity
+        have h' : u i * ((i : K) + 1) < ∑ k ∈ range i, u k + u i - r := by
+          have := sub_neg.mp h
+          rwa [one_div, inv_mul_eq_div, lt_div_iff₀ hi1'] at this
+        rw [htau, one_div, inv_mul_eq_div, lt_div_iff₀ hipos]
+        linarith
+      have : u k ≤ u i := hanti i k hk1 hk2
+      exact max_eq_right (by linarith)
+  rw [← sum_range_add_sum_Ico _ hin, sum_congr rfl hlow, sum_congr rfl hhigh,
+    sum_sub_distrib, sum_const, sum_const_zero, card_range, nsmul_eq_mul, add_zero]
+  rw [htau]; field_simp; ring
+
+
+/-- End-to-end for the L1 leaf of the expression-tree model: for every length, all data terms,
+non-negative weights and positive (scalar or point-wise) steps, the list computed by
+`Fn.prox` for `proximal_l1(space, lam, g)` has the right length and minimises
+`Σ w_i (λ|z_i − g_i| + (z_i − x_i)²/(2σ_i))` over all `z`, with a quadratic gap. -/
+theorem C07.l1_list_minimises (E : Env K) (lam : K) (g : Option (List K)) (w x z : List K)
+    (sig : Sig K) (hl : 0 < lam) (hw : ∀ i < x.length, 0 ≤ w.getD i 0)
+    (hs : ∀ i < x.length, 0 < sig.at i) :
+    let p := Fn.prox E (.l1 lam g) w sig x
+    p.length = x.length ∧
+    ∑ i ∈ range x.length, w.getD i 0 * (lam * |p.getD i 0 - gAt g i|
+        + ((p.getD i 0 - x.getD i 0) ^ 2 + (z.getD i 0 - p.getD i 0) ^ 2) / (2 * sig.at i))
+      ≤ ∑ i ∈ range x.length, w.getD i 0 * (lam * |z.getD i 0 - gAt g i|
+        + (z.getD i 0 - x.getD i 0) ^ 2 / (2 * sig.at i)) := by
+  intro p
+  have hp : p = idxMap x fun i xi => softCode (sig.at i * lam) xi (gAt g i) := rfl
+  refine ⟨by rw [hp, idxMap_length], ?_⟩
+  apply C07.separable_lift (range x.length) (fun i => w.getD i 0) (fun i => sig.at i)
+    (fun i => x.getD i 0) (fun i => p.getD i 0) (fun i => z.getD i 0)
+    (fun i t => lam * |t - gAt g i|)
+  · intro i hi; exact hw i (mem_range.mp hi)
+  · intro i hi; exact hs i (mem_range.mp hi)
+  · intro i hi
+    have hi' := mem_range.mp hi
+    have hpi : p.getD i 0 = softCode (sig.at i * lam) (x.getD i 0) (gAt g i) := by
+      rw [hp, idxMap_getD _ _ _ _ hi']
+    have := C07.soft_vi (sig.at i * lam) (x.getD i 0) (gAt g i) (z.getD i 0)
+      (mul_pos (hs i hi') hl)
+    simp only [hpi]
+    linarith [this]
+
+
+/-! Non-vacuity of the lifting theorems on concrete data. -/
+/-- Example data for the simplex threshold: the sorted vector (1, 1/2, -1). -/
+def C07.uEx : ℕ → ℚ := fun k => if k = 0 then 1 else if k = 1 then 1 / 2 else -1
+
+example : ∑ k ∈ Finset.range 3, maxK (C07.uEx k
+    - 1 / ((2 : ℕ) : ℚ) * (∑ k ∈ Finset.range 2, C07.uEx k - 1)) 0 = 1 := by
+  apply C07.simplex_threshold_feasible_partial 3 2 C07.uEx 1 (by norm_num) (by norm_num)
+  · intro a b hab hb
+    interval_cases b <;> interval_cases a <;> simp [C07.uEx] <;> norm_num
+  · simp [Finset.sum_range_succ, C07.uEx]; norm_num
+  · right; simp [Finset.sum_range_succ, C07.uEx]; norm_num
+
+example : (Fn.prox (⟨id, 0⟩ : Env ℚ) (.l1 1 none) [1, 2] (.sc (1 / 2)) [2, -1]).length = 2 :=
+  (C07.l1_list_minimises (⟨id, 0⟩ : Env ℚ) 1 none [1, 2] [2, -1] [0, 0] (.sc (1 / 2)) (by norm_num)
+    (by intro i hi; simp at hi; interval_cases i <;> simp)
+    (by intro i hi; simp [Sig.at])).1
+
+/-- KKT sufficiency on the concrete point x = (1, 1/2, -1), τ = 1/4, r = 1. -/
+example : ∑ i : Fin 3, ((![1, 1/2, -1] : Fin 3 → ℚ) i - maxK ((![1, 1/2, -1] : Fin 3 → ℚ) i - 1/4) 0)
+    * ((![1/3, 1/3, 1/3] : Fin 3 → ℚ) i - maxK ((![1, 1/2, -1] : Fin 3 → ℚ) i - 1/4) 0) ≤ 0 :=
+  (C07.simplex_kkt_sufficient Finset.univ (![1, 1/2, -1] : Fin 3 → ℚ) ![1/3, 1/3, 1/3] (1/4) 1
+    (by simp [Fin.sum_univ_three, maxK]; norm_num)
+    (by intro i _; fin_cases i <;> simp)
+    (by simp [Fin.sum_univ_three]; norm_num)).2
+
+end Lift
 
 /-! ## abstract layer (real inner product space: covers every weighted / product space) -/
 section Abstract
@@ -303,4 +652,121 @@ theorem C07.l2_conj_pair (lam : ℝ) (hl : 0 ≤ lam) :
       nlinarith
     · rw [real_inner_comm] at h0 h2; linarith
 
+/-- `ProximalL2._call` without data term (`g is None`, `eps = 0`) is the proximal of `λ‖·‖`. -/
+theorem C07.l2_prox_none (lam σ : ℝ) (hl : 0 ≤ lam) (hσ : 0 < σ) :
+    IsProx (Set.univ : Set E) (fun z => lam * ‖z‖) σ
+      (proxL2 (fun v : E => ‖v‖) 0 lam none σ) := by
+  have h := C07.l2_prox (E := E) lam σ 0 hl hσ
+  intro x
+  have e : proxL2 (fun v : E => ‖v‖) 0 lam none σ x
+      = proxL2 (fun v : E => ‖v‖) 0 lam (some 0) σ x := by
+    simp only [proxL2, sub_zero, smul_zero, add_zero, zero_smul]
+  rw [e]
+  simpa using h x
+
+/-- `proximal_convex_conj_l2` = `proximal_convex_conj(proximal_l2)` is the projection onto the
+ball `‖y‖ ≤ λ` (proximal of the indicator, for every step). -/
+theorem C07.ccl2_prox (lam σ : ℝ) (hl : 0 ≤ lam) (hσ : 0 < σ) :
+    IsProx {y : E | ‖y‖ ≤ lam} (fun _ => 0) σ
+      (proxConvexConj (proxL2 (fun v : E => ‖v‖) 0 lam none) σ) :=
+  C07.prox_moreau Set.univ (fun z => lam * ‖z‖) _ _ _ σ hσ (C07.l2_conj_pair lam hl)
+    (C07.l2_prox_none lam (1 / σ) hl (by positivity))
+
+/-- `proximal_quadratic_perturbation` with `u=None` is the `u = 0` case. -/
+theorem C07.prox_quadratic_perturbation_none (P : ℝ → E → E) (rsqrt : ℝ → ℝ) (a σ : ℝ) (x : E) :
+    proxQuadPerturb rsqrt P a none σ x = proxQuadPerturb rsqrt P a (some 0) σ x := by
+  simp [proxQuadPerturb]
+
+/-- Separable sum of two functionals (`combine_proximals`, possibly different steps), stated
+on the components: the pair of variational inequalities adds up to the one of the sum in the
+product inner product `⟪x₁,y₁⟫ + ⟪x₂,y₂⟫`. -/
+theorem C07.prox_separable_sum {F : Type} [NormedAddCommGroup F] [InnerProductSpace ℝ F]
+    (C₁ : Set E) (f₁ : E → ℝ) (C₂ : Set F) (f₂ : F → ℝ) (σ : ℝ) (x₁ p₁ : E) (x₂ p₂ : F)
+    (h₁ : ProxVI C₁ f₁ σ x₁ p₁) (h₂ : ProxVI C₂ f₂ σ x₂ p₂) :
+    (p₁ ∈ C₁ ∧ p₂ ∈ C₂) ∧ ∀ z₁ ∈ C₁, ∀ z₂ ∈ C₂,
+      σ * (f₁ p₁ + f₂ p₂) + (inner ℝ (x₁ - p₁) (z₁ - p₁) + inner ℝ (x₂ - p₂) (z₂ - p₂))
+        ≤ σ * (f₁ z₁ + f₂ z₂) := by
+  refine ⟨⟨h₁.1, h₂.1⟩, fun z₁ hz₁ z₂ hz₂ => ?_⟩
+  have a := h₁.2 z₁ hz₁
+  have b := h₂.2 z₂ hz₂
+  linarith
+
+/-! Non-vacuity: the hypotheses of the calculus rules are met by the L2-norm proximal of the
+model on `E = ℝ`, with concrete numbers. -/
+example : IsProx (Set.univ : Set ℝ) (fun z => 2 * ‖z - 1‖) 3
+    (proxL2 (fun v : ℝ => ‖v‖) 0 2 (some 1) 3) := C07.l2_prox 2 3 1 (by norm_num) (by norm_num)
+
+example : IsProx {z : ℝ | z - 5 ∈ Set.univ} (fun z => 2 * ‖z - 5 - 1‖) 3
+    (proxTranslation (proxL2 (fun v : ℝ => ‖v‖) 0 2 (some 1)) 5 3) :=
+  C07.prox_translation _ _ _ 5 3 (C07.l2_prox 2 3 1 (by norm_num) (by norm_num))
+
+example : IsProx {z : ℝ | (-2 : ℝ) • z ∈ Set.univ} (fun z => 2 * ‖(-2 : ℝ) • z - 1‖) 3
+    (proxArgScaling (proxL2 (fun v : ℝ => ‖v‖) 0 2 (some 1)) (-2) 3) :=
+  C07.prox_arg_scaling _ _ _ (-2) 3 (by norm_num)
+    (C07.l2_prox 2 _ 1 (by norm_num) (by norm_num))
+
+example : IsProx (Set.univ : Set ℝ) (fun z => 2 * ‖z - 1‖ + 3 / 2 * ‖z‖ ^ 2 + inner ℝ z 7) 1
+    (proxQuadPerturb (fun _ => 1 / 2) (proxL2 (fun v : ℝ => ‖v‖) 0 2 (some 1)) (3 / 2)
+      (some 7) 1) :=
+  C07.prox_quadratic_perturbation _ _ _ _ (3 / 2) 1 7 (by norm_num) (by norm_num)
+    (by norm_num) (fun s hs => C07.l2_prox 2 s 1 (by norm_num) hs)
+
+example : IsProx {y : ℝ | ‖y‖ ≤ 2} (fun _ => 0) 3
+    (proxConvexConj (proxL2 (fun v : ℝ => ‖v‖) 0 2 none) 3) :=
+  C07.ccl2_prox 2 3 (by norm_num) (by norm_num)
+
+
 end Abstract
+
+/-! ## Kullback–Leibler (over ℝ, `np.sqrt` = `Real.sqrt`) -/
+
+/-- `ProximalConvexConjKL._call` at one point, over ℝ with the true square root:
+`p = (x + λ − √((x−λ)² + 4λσg))/2` lies in the domain `p < λ` of
+`(λ·KL_g)^*(z) = −λ g log(1 − z/λ)` and satisfies the variational inequality of its proximal
+(stationarity `(x − p)(λ − p) = σλg` plus `log t ≤ t − 1`). -/
+theorem C07.klcc_vi (lam sig g x z : ℝ) (hl : 0 < lam) (hs : 0 < sig) (hg : 0 < g)
+    (hz : z < lam) :
+    let p := klccCode Real.sqrt lam sig x g
+    p < lam ∧
+    sig * (-(lam * g) * Real.log (1 - p / lam)) + (x - p) * (z - p)
+      ≤ sig * (-(lam * g) * Real.log (1 - z / lam)) := by
+  intro p
+  set r := (x - lam) * (x - lam) + (1 + 1) * (1 + 1) * lam * sig * g with hr
+  have hp : p = (x - Real.sqrt r + lam) / (1 + 1) := rfl
+  have hrpos : 0 < r := by rw [hr]; nlinarith [mul_self_nonneg (x - lam), mul_pos (mul_pos hl hs) hg]
+  have hsq : Real.sqrt r * Real.sqrt r = r := Real.mul_self_sqrt (le_of_lt hrpos)
+  have hs0 : 0 < Real.sqrt r := Real.sqrt_pos.mpr hrpos
+  -- sqrt r > |x - lam|
+  have hgt : x - lam < Real.sqrt r := by
+    by_contra hc
+    have hc' : Real.sqrt r ≤ x - lam := not_lt.mp hc
+    have : Real.sqrt r * Real.sqrt r ≤ (x - lam) * (x - lam) := by nlinarith
+    rw [hsq, hr] at this
+    nlinarith [mul_pos (mul_pos hl hs) hg]
+  have hplt : p < lam := by rw [hp]; linarith
+  refine ⟨hplt, ?_⟩
+  -- stationarity
+  have hstat : (x - p) * (lam - p) = sig * lam * g := by
+    rw [hp]
+    have : (x - (x - Real.sqrt r + lam) / (1 + 1)) * (lam - (x - Real.sqrt r + lam) / (1 + 1))
+        = (Real.sqrt r * Real.sqrt r - (x - lam) * (x - lam)) / 4 := by ring
+    rw [this, hsq, hr]; ring
+  have ha : 0 < lam - p := by linarith
+  have hb : 0 < lam - z := by linarith
+  have hlog : Real.log ((lam - z) / (lam - p)) ≤ (lam - z) / (lam - p) - 1 :=
+    Real.log_le_sub_one_of_pos (div_pos hb ha)
+  have e1 : 1 - p / lam = (lam - p) / lam := by field_simp
+  have e2 : 1 - z / lam = (lam - z) / lam := by field_simp
+  rw [e1, e2, Real.log_div (ne_of_gt ha) (ne_of_gt hl), Real.log_div (ne_of_gt hb) (ne_of_gt hl)]
+  rw [Real.log_div (ne_of_gt hb) (ne_of_gt ha)] at hlog
+  have hxp : x - p = sig * lam * g / (lam - p) := by
+    rw [eq_div_iff (ne_of_gt ha)]; exact hstat
+  have e3 : (lam - z) / (lam - p) - 1 = (p - z) / (lam - p) := by field_simp; ring
+  rw [e3] at hlog
+  have hk : 0 < sig * lam * g := mul_pos (mul_pos hs hl) hg
+  have : sig * lam * g * (Real.log (lam - z) - Real.log (lam - p))
+      ≤ sig * lam * g * ((p - z) / (lam - p)) := mul_le_mul_of_nonneg_left hlog (le_of_lt hk)
+  have e4 : (x - p) * (z - p) = - (sig * lam * g * ((p - z) / (lam - p))) := by
+    rw [hxp]; field_simp; ring
+  rw [e4]
+  nlinarith
